@@ -153,6 +153,7 @@ func checkC01(p *Prog, r *Report) {
 	c01Local(p, r)
 	c01Handoff(p, r)
 	c01LockOrder(p, r)
+	sendResult(p, r, "C01.send-result", requestRoles(p))
 }
 
 // ---------------------------------------------------------------------------
@@ -634,12 +635,46 @@ func c01Closing(p *Prog, r *Report, cc *types.Named) {
 				}
 				return nil
 			}
+			// does a sender take its request back on failure?  (a function that registers and also removes)
+			takesBack, takeBackFn := false, ""
+			if sites, _ := p.staticCallSites(getPendingRoles(p).loadAndDelete); true {
+				for _, cs := range sites {
+					f := cs.Parent()
+					if callsDirectly(f, func(c ssa.CallInstruction) bool {
+						return c.Common().StaticCallee() == getPendingRoles(p).register || c.Common().StaticCallee() == getPendingRoles(p).store
+					}) {
+						takesBack, takeBackFn = true, f.Name()
+					}
+				}
+			}
+			// the callback may first claim the entry (remove it from the table): when the claim
+			// is lost to a sender taking its request back, that sender reports the failure and the
+			// entry must not be notified here as well
+			claim := getPendingRoles(p).loadAndDelete
+			s.Model = func(sm *Sim, st *State, call ssa.CallInstruction, callee *ssa.Function) []*State {
+				if callee == nil || callee != claim {
+					return nil
+				}
+				won, lost := st.clone(), st.clone()
+				SetCallResult(won, call, AV{K: avNonNil})
+				won.aux["claim"] = "won"
+				SetCallResult(lost, call, AV{K: avNil})
+				lost.aux["claim"] = "lost"
+				return []*State{won, lost}
+			}
 			for _, o := range s.Run(cb, newState()) {
 				if o.Panic {
 					continue
 				}
-				if o.St.eff["onclose"] != 1 {
-					probs = append(probs, fmt.Sprintf("%s: callback path notifies the entry %d times", p.Pos(o.Pos), o.St.eff["onclose"]))
+				want := 1
+				if o.St.aux["claim"] == "lost" {
+					want = 0
+				}
+				if takesBack && o.St.aux["claim"] == "" {
+					probs = append(probs, fmt.Sprintf("%s: the entry is notified without being claimed (removed) first although %s takes a request back out of the table when its write fails: both may act on the same request", p.Pos(o.Pos), takeBackFn))
+				}
+				if o.St.eff["onclose"] != want {
+					probs = append(probs, fmt.Sprintf("%s: callback path (claim %q) notifies the entry %d times, expected %d", p.Pos(o.Pos), o.St.aux["claim"], o.St.eff["onclose"], want))
 				}
 				if b, ok := o.Ret.isBool(); !ok || !b {
 					probs = append(probs, fmt.Sprintf("%s: callback may stop the iteration (returns %s), later entries are never notified", p.Pos(o.Pos), o.Ret))
